@@ -928,7 +928,8 @@ impl Prop for ReaderProp {
         st.add("source.calls", s.c.calls);
         st.add("reach.buffer_shrunk_realloc", crate::alloc::shrink_events() - shrink0);
         if s.budget_exceeded {
-            st.hit("note.source_budget_exceeded");
+            st.hit("note.source_call_budget_exceeded_no_verdict");
+            violation = None;
         }
         trace.u64(s.trace.0);
         let key = if s.c.ok_calls >= 2 {
